@@ -80,6 +80,27 @@ def f_first_gt(E, node):
     return Z(first_gt_fn(E, a)['fn'](v), INT)
 
 
+@form('pad_amount')
+def f_pad_amount(E, node):
+    """the number of zeros find_extrema puts in front of the signal: ceil(filter length / 2) when it pads (the filter
+    length being what neurodsp's compute_filter_length returned), else 0"""
+    for q, bound, res in reversed(E.st.calls):
+        if q == 'neurodsp.filt.fir.compute_filter_length':
+            fl = to_real(res)
+            return Z(-z3.ToInt(-(fl / 2)), INT)
+    return Z(z3.IntVal(0), INT)
+
+
+@form('padded')
+def f_padded(E, node):
+    """padded(sig, h, j): entry j of the signal with h zeros in front and behind"""
+    sig = E.eval(node.args[0])
+    h = term_int(E.eval(node.args[1]))
+    j = term_int(E.eval(node.args[2]))
+    n = sig.n if not isinstance(sig.n, int) else z3.IntVal(sig.n)
+    return Z(z3.If(z3.And(j >= h, j < h + n), to_real(E.rd(sig, j - h)), z3.RealVal(0)), REAL)
+
+
 @form('witness')
 def f_witness(E, node):
     """witness('name'): a constant whose existence the surrounding (assumed, definitional) clause asserts"""
@@ -87,44 +108,565 @@ def f_witness(E, node):
     return Z(z3.Int('witness.' + name), INT)
 
 
+@form('count_before')
+def f_count_before(E, node):
+    """count_before(xs, v): for an index array xs obtained from a boolean mask (nonzero): the number of its entries below v
+    (the counting function of the selection map; equivalently the position of the first entry >= v)"""
+    a = E.eval(node.args[0])
+    v = term_int(E.eval(node.args[1]))
+    meta = getattr(a, 'meta', None) or {}
+    if 'cnt' not in meta:
+        raise Unsupported('count_before of an array that is not a nonzero() result')
+    return Z(meta['cnt'](v), INT)
+
+
 # ---------------------------------------------------------------------------------------------------------------------
-H = "(int(np.ceil(filt_len / 2)) if pad else 0)"          # zeros added in front of the signal (locals of the function)
+# proof library: facts about a selection map (g, cnt) of a boolean mask of length m with t selected positions
+def _cmap_of(E, arr):
+    mask = arr.meta['nonzero_of']
+    key = [kk for kk in E.st.ghost.get('cmap_inst', {}) if E.st.ghost[kk][1].eq(arr.meta['g'])][0]
+    return E.st.ghost['cmap_inst'][key]
+
+
+def cmap_lemmas(P, AX, g, cnt, t, tag):
+    m = AX['n']
+    x, i0, j, k, i = [z3.Int('%s_%s' % (tag, nm)) for nm in ('x', 'i0', 'j', 'k', 'i')]
+    P.induct_q(tag + ':mono', j, i0, m, cnt(i0) <= cnt(j), lambda it: [AX['rec'](it)], params=[i0], prem=(0 <= i0))
+    P.forall(tag + ':cag', [k], z3.And(0 <= k, k < t),
+             z3.And(g(k) >= 0, g(k) < m, AX['mask'](g(k)), cnt(g(k)) == k, cnt(g(k) + 1) == k + 1),
+             by=[AX['sel'](k), AX['rec'](g(k))])
+    P.forall(tag + ':cle', [i], z3.And(0 <= i, i <= m), z3.And(0 <= cnt(i), cnt(i) <= t),
+             by=[P.inst(tag + ':mono', 0, i), P.inst(tag + ':mono', i, m), AX['base']])
+    P.forall(tag + ':lt', [k, i], z3.And(0 <= k, k < t, 0 <= i, i <= m, g(k) < i), k < cnt(i),
+             by=[P.inst(tag + ':cag', k), P.inst(tag + ':mono', g(k) + 1, i)])
+    P.forall(tag + ':below', [k, i], z3.And(0 <= k, k < t, 0 <= i, i <= m, k < cnt(i)), g(k) < i,
+             by=[P.inst(tag + ':cag', k), P.inst(tag + ':mono', i, g(k))])
+    P.forall(tag + ':hit', [i], z3.And(0 <= i, i < m, AX['mask'](i)),
+             z3.And(g(cnt(i)) == i, cnt(i) < t, cnt(i) >= 0, cnt(i + 1) == cnt(i) + 1),
+             by=[AX['hit'](i), AX['rec'](i)])
+
+
+def _after_crossings(P):
+    E = P.E
+    env = P.env
+    R, D, F = env['rise_xs'], env['decay_xs'], env['sig_filt']
+    if not (isinstance(R, Arr) and isinstance(D, Arr)):
+        raise Unsupported('zero-crossing arrays are not index arrays on this path')
+    AR, AD = _cmap_of(E, R), _cmap_of(E, D)
+    gR, cR, gD, cD = R.meta['g'], R.meta['cnt'], D.meta['g'], D.meta['cnt']
+    tR, tD = R.n, D.n
+    m = AR['n']
+    P.ground('same-mask-length', AR['n'] == AD['n'], by=[])
+    cmap_lemmas(P, AR, gR, cR, tR, 'R')
+    cmap_lemmas(P, AD, gD, cD, tD, 'D')
+    Fat = lambda i: to_real(E.rd(F, i))
+    q, mm = z3.Int('L_q'), z3.Int('L_m')
+    # L1: between two consecutive rise crossings the signal comes back down: a decay crossing lies strictly between them
+    c0 = cD(gR(q) + 1)
+    prem1 = z3.And(0 <= q, q + 1 < tR, P.inst('R:cag', q), P.inst('R:cag', q + 1), AR['inc'](q, q + 1))
+    P.induct_q('L1:ind', mm, gR(q) + 1, gR(q + 1), z3.And(cD(mm) >= c0, z3.Or(Fat(mm) > 0, cD(mm) > c0)),
+               lambda it: [AD['rec'](it)], params=[q], prem=prem1)
+    P.forall('L1', [q], z3.And(0 <= q, q + 1 < tR),
+             z3.And(c0 >= 0, c0 < tD, gR(q) < gD(c0), gD(c0) < gR(q + 1), cD(gR(q + 1)) > c0, cD(gR(q + 1) + 1) == cD(gR(q + 1))),
+             by=[P.inst('R:cag', q), P.inst('R:cag', q + 1), AR['inc'](q, q + 1), P.inst('L1:ind', q, gR(q + 1)),
+                 P.inst('D:cle', gR(q) + 1), P.inst('D:cle', gR(q + 1)), AD['rec'](gR(q + 1)),
+                 P.inst('D:cag', c0), P.inst('D:lt', c0, gR(q) + 1), P.inst('D:below', c0, gR(q + 1)),
+                 P.inst('D:mono', gR(q) + 1, gR(q + 1))])
+    # L2: and between two consecutive decay crossings a rise crossing
+    d0 = cR(gD(q) + 1)
+    prem2 = z3.And(0 <= q, q + 1 < tD, P.inst('D:cag', q), P.inst('D:cag', q + 1), AD['inc'](q, q + 1))
+    P.induct_q('L2:ind', mm, gD(q) + 1, gD(q + 1), z3.And(cR(mm) >= d0, z3.Or(Fat(mm) <= 0, cR(mm) > d0)),
+               lambda it: [AR['rec'](it)], params=[q], prem=prem2)
+    P.forall('L2', [q], z3.And(0 <= q, q + 1 < tD),
+             z3.And(d0 >= 0, d0 < tR, gD(q) < gR(d0), gR(d0) < gD(q + 1), cR(gD(q + 1)) > d0, cR(gD(q + 1) + 1) == cR(gD(q + 1))),
+             by=[P.inst('D:cag', q), P.inst('D:cag', q + 1), AD['inc'](q, q + 1), P.inst('L2:ind', q, gD(q + 1)),
+                 P.inst('R:cle', gD(q) + 1), P.inst('R:cle', gD(q + 1)), AR['rec'](gD(q + 1)),
+                 P.inst('R:cag', d0), P.inst('R:lt', d0, gD(q) + 1), P.inst('R:below', d0, gD(q + 1)),
+                 P.inst('R:mono', gD(q) + 1, gD(q + 1))])
+
+
+def _maps(P):
+    E, env = P.E, P.env
+    R, D, F = env['rise_xs'], env['decay_xs'], env['sig_filt']
+    return dict(E=E, env=env, R=R, D=D, F=F, AR=_cmap_of(E, R), AD=_cmap_of(E, D), gR=R.meta['g'], cR=R.meta['cnt'],
+                gD=D.meta['g'], cD=D.meta['cnt'], tR=R.n, tD=D.n)
+
+
+def _after_counts(P):
+    """every rise that gets a peak has a later decay crossing, every decay that gets a trough a later rise crossing"""
+    M = _maps(P)
+    gR, cR, gD, cD, tR, tD, AR, AD = M['gR'], M['cR'], M['gD'], M['cD'], M['tR'], M['tD'], M['AR'], M['AD']
+    nP, nT = term_int(M['env']['n_peaks']), term_int(M['env']['n_troughs'])
+    q = z3.Int('LD_q')
+    P.forall('LD', [q], z3.And(0 <= q, q < nP), z3.And(cD(gR(q) + 1) < tD, cD(gR(q) + 1) >= 0),
+             by=[P.inst('L1', q), P.inst('R:cag', q), P.inst('R:cag', tR - 1), P.inst('D:cag', tD - 1), AR['inc'](q, tR - 1),
+                 P.inst('D:below', tD - 1, gR(q) + 1), P.inst('D:cle', gR(q) + 1)])
+    _structure(P)
+    P.forall('LR', [q], z3.And(0 <= q, q < nT), z3.And(cR(gD(q) + 1) < tR, cR(gD(q) + 1) >= 0),
+             by=[P.inst('L2', q), P.inst('D:cag', q), P.inst('D:cag', tD - 1), P.inst('R:cag', tR - 1), AD['inc'](q, tD - 1),
+                 P.inst('R:below', tR - 1, gD(q) + 1), P.inst('R:cle', gD(q) + 1)])
+
+
+def _structure(P):
+    """the two crossing sequences strictly alternate: exactly one decay between consecutive rises and vice versa, so the
+    first decay after rise q is decay number q + c with c in {0, 1} fixed by which kind of crossing comes first"""
+    M = _maps(P)
+    gR, cR, gD, cD, tR, tD, AR, AD = M['gR'], M['cR'], M['gD'], M['cD'], M['tR'], M['tD'], M['AR'], M['AD']
+    q = z3.Int('S_q')
+    c0 = cD(gR(q) + 1)
+    d0 = cR(gD(c0) + 1)
+    P.forall('E1', [q], z3.And(0 <= q, q + 1 < tR), cD(gR(q + 1) + 1) == c0 + 1,
+             by=[P.inst('L1', q), P.inst('D:cle', gR(q + 1)), P.inst('D:below', c0 + 1, gR(q + 1)), P.inst('L2', c0),
+                 AR['inc'](d0, q), AR['inc'](q + 1, d0), P.inst('R:cag', q), P.inst('R:cag', q + 1), P.inst('D:cag', c0 + 1),
+                 P.inst('R:cag', d0)])
+    e0 = cR(gD(q) + 1)
+    f0 = cD(gR(e0) + 1)
+    P.forall('E2', [q], z3.And(0 <= q, q + 1 < tD), cR(gD(q + 1) + 1) == e0 + 1,
+             by=[P.inst('L2', q), P.inst('R:cle', gD(q + 1)), P.inst('R:below', e0 + 1, gD(q + 1)), P.inst('L1', e0),
+                 AD['inc'](f0, q), AD['inc'](q + 1, f0), P.inst('D:cag', q), P.inst('D:cag', q + 1), P.inst('R:cag', e0 + 1),
+                 P.inst('D:cag', f0)])
+    c = cD(gR(0) + 1)
+    cp = cR(gD(0) + 1)
+    P.induct_q('S1', q, 0, tR - 1, cD(gR(q) + 1) == c + q, lambda it: [P.inst('E1', it)])
+    P.induct_q('S2', q, 0, tD - 1, cR(gD(q) + 1) == cp + q, lambda it: [P.inst('E2', it)])
+    P.ground('first-kind', z3.And(c >= 0, cp >= 0, c + cp == 1),
+             by=[P.inst('R:cag', 0), P.inst('D:cag', 0), P.inst('D:cle', gR(0) + 1), P.inst('R:cle', gD(0) + 1),
+                 P.inst('D:below', 0, gR(0) + 1), P.inst('R:lt', 0, gD(0) + 1), P.inst('R:below', 1, gD(0) + 1),
+                 P.inst('R:cag', 1), P.inst('L1', 0),
+                 P.inst('R:below', 0, gD(0) + 1), P.inst('D:lt', 0, gR(0) + 1), P.inst('D:below', 1, gR(0) + 1),
+                 P.inst('D:cag', 1), P.inst('L2', 0)])
+
+
+def _after_store(kind):
+    """after  peaks[p_idx] = np.argmax(sig[last_rise:next_decay]) + last_rise : the stored position is the FIRST maximum of
+    the (padded) raw signal over the half-wave window [last_rise, next_decay) - re-indexed from the slice to the signal"""
+    def h(P):
+        node = P.node
+        if not (isinstance(node, _ast.Assign) and isinstance(node.targets[0], _ast.Subscript)):
+            return
+        E, env = P.E, P.env
+        ax = E.st.ghost['argext'][-1]
+        lo = term_int(env['last_rise' if kind == 'peak' else 'last_decay'])
+        hi = term_int(env['next_decay' if kind == 'peak' else 'next_rise'])
+        S = env['sig']
+        at = lambda x: to_real(E.rd(S, x))
+        r, n = ax['r'], ax['n']
+        pos = lo + r
+        j = z3.Int('A_j')
+        inst_all = z3.Implies(z3.And(j - lo >= 0, j - lo < n), ax['ge'](ax['at'](r), ax['at'](j - lo)))
+        inst_first = z3.Implies(z3.And(j - lo >= 0, j - lo < r), ax['gt'](ax['at'](r), ax['at'](j - lo)))
+        ge, gt = ax['ge'], ax['gt']
+        P.forall('window-extreme:' + kind, [j], z3.And(lo <= j, j < hi), ge(at(pos), at(j)), by=[inst_all, P.inst('scan-result:' + kind)])
+        P.forall('window-first:' + kind, [j], z3.And(lo <= j, j < pos), gt(at(pos), at(j)), by=[inst_first, P.inst('scan-result:' + kind)])
+    return h
+
+
+def _stash_start(name):
+    def h(P):
+        a = P.env[name]
+        P.E.st.ghost['scan_start'] = a.off if not isinstance(a.off, int) else z3.IntVal(a.off)
+    return h
+
+
+def _after_scan(kind):
+    """after the inner scan for the next crossing of the other kind: the scanned view now starts exactly at the first such
+    crossing after the current one (position = count_before), which exists and lies beyond it"""
+    def h(P):
+        M = _maps(P)
+        env = M['env']
+        if kind == 'peak':
+            g1, c1, t1, A1, g2, c2, t2, A2, pre1, pre2, later, view, idx = (M['gR'], M['cR'], M['tR'], M['AR'], M['gD'], M['cD'],
+                                                                          M['tD'], M['AD'], 'R', 'D', 'LD', '_decay_xs', 'p_idx')
+        else:
+            g1, c1, t1, A1, g2, c2, t2, A2, pre1, pre2, later, view, idx = (M['gD'], M['cD'], M['tD'], M['AD'], M['gR'], M['cR'],
+                                                                          M['tR'], M['AR'], 'D', 'R', 'LR', '_rise_xs', 't_idx')
+        p = term_int(env[idx])
+        v = g1(p)
+        c = c2(v + 1)
+        s = P.E.st.ghost['scan_start']
+        a = env[view]
+        new_start = a.off if not isinstance(a.off, int) else z3.IntVal(a.off)
+        inner = 2 if kind == 'peak' else 4
+        by = [P.inst(later, p), P.inst(pre2 + ':cle', v + 1), P.inst(pre1 + ':cag', p), P.inst(pre1 + ':cag', p - 1),
+              A1['inc'](p - 1, p), P.inst(pre2 + ':mono', g1(p - 1) + 1, v + 1), P.inst(pre2 + ':lt', c, v + 1),
+              P.instq('loop%d-inv' % inner, 0, c - s), P.inst(pre2 + ':below', new_start, v + 1), P.inst(pre2 + ':cag', c)]
+        P.ground('scan-result:' + kind, z3.And(new_start == c, c >= 0, c < t2, g2(c) > v, g2(c) < A2['n'], v >= 0), by=by)
+    return h
+
+
+import ast as _ast
+
+
+def _is_shift(node):
+    return isinstance(node, _ast.Assign) and isinstance(node.value, _ast.BinOp) and isinstance(node.value.op, _ast.Sub)
+
+
+def _is_filter(node):
+    return isinstance(node, _ast.Assign) and isinstance(node.value, _ast.Subscript) and isinstance(node.value.slice, _ast.Call)
+
+
+def _is_trim(node):
+    return isinstance(node, _ast.Assign) and isinstance(node.value, _ast.IfExp)
+
+
+def _before_peaks(P):
+    if _is_shift(P.node):
+        P.E.st.ghost['raw_extrema'] = (P.env['peaks'], P.env['troughs'])
+    elif _is_trim(P.node):
+        _before_trim_peaks(P)
+
+
+def _chains(P):
+    """after the two scanning loops: the located extrema strictly alternate in time, peak q is followed by trough q + c"""
+    M = _maps(P)
+    E, env = M['E'], M['env']
+    gR, cR, gD, cD, tR, tD, AR, AD = M['gR'], M['cR'], M['gD'], M['cD'], M['tR'], M['tD'], M['AR'], M['AD']
+    rawP, rawT = E.st.ghost['raw_extrema']
+    Pa = lambda i: to_int(E.rd(rawP, i))
+    Ta = lambda i: to_int(E.rd(rawT, i))
+    nP, nT = term_int(env['n_peaks']), term_int(env['n_troughs'])
+    c = cD(gR(0) + 1)
+    cp = cR(gD(0) + 1)
+    q, i0, j = z3.Int('C_q'), z3.Int('C_i'), z3.Int('C_j')
+    FK = P.inst('first-kind')
+    P.forall('Pwin', [q], z3.And(0 <= q, q < nP), z3.And(gR(q) <= Pa(q), Pa(q) < gD(c + q), q < tR),
+             by=[P.instq('loop1-exit', 3, q), P.inst('S1', q)])
+    P.forall('Twin', [q], z3.And(0 <= q, q < nT), z3.And(gD(q) <= Ta(q), Ta(q) < gR(cp + q), q < tD),
+             by=[P.instq('loop3-exit', 3, q), P.inst('S2', q)])
+    # how many of each: the trough after peak q is trough q + c, and there are nP or nP - 1 of those
+    P.ground('counts', z3.And(nT - c >= nP - 1, nT - c <= nP, nP <= tR, nT <= tD, nP >= 1, nT >= 0),
+             by=[FK, P.inst('S1', tR - 1), P.inst('S2', tD - 1), P.inst('R:cag', tR - 1), P.inst('D:cag', tD - 1),
+                 P.inst('D:lt', tD - 1, gR(tR - 1) + 1), P.inst('R:lt', tR - 1, gD(tD - 1) + 1),
+                 P.inst('D:cle', gR(tR - 1) + 1), P.inst('R:cle', gD(tD - 1) + 1)])
+    CN = P.inst('counts')
+    P.forall('chainA', [q], z3.And(0 <= q, q < nP, q + c < nT), Pa(q) < Ta(q + c),
+             by=[P.inst('Pwin', q), P.inst('Twin', q + c), FK, CN])
+    P.forall('chainB', [q], z3.And(0 <= q, q < nT, q - c + 1 < nP), Ta(q) < Pa(q - c + 1),
+             by=[P.inst('Twin', q), P.inst('Pwin', q - c + 1), FK, CN])
+    P.forall('Pstep', [q], z3.And(0 <= q, q + 1 < nP), Pa(q) < Pa(q + 1),
+             by=[P.inst('Pwin', q), P.inst('Pwin', q + 1), P.inst('L1', q), P.inst('S1', q), FK, CN])
+    P.forall('Tstep', [q], z3.And(0 <= q, q + 1 < nT), Ta(q) < Ta(q + 1),
+             by=[P.inst('Twin', q), P.inst('Twin', q + 1), P.inst('L2', q), P.inst('S2', q), FK, CN])
+    P.induct_q('Pmono', j, i0, nP - 1, Pa(i0) <= Pa(j), lambda it: [P.inst('Pstep', it)], params=[i0], prem=(0 <= i0))
+    P.induct_q('Tmono', j, i0, nT - 1, Ta(i0) <= Ta(j), lambda it: [P.inst('Tstep', it)], params=[i0], prem=(0 <= i0))
+    E.st.ghost['chain_ctx'] = dict(Pa=Pa, Ta=Ta, nP=nP, nT=nT, c=c, cp=cp)
+
+
+def _after_troughs(P):
+    if _is_shift(P.node):
+        _chains(P)
+    elif _is_filter(P.node):
+        _after_filter(P)
+
+
+def _after_troughs2(P):
+    _after_store('trough')(P)
+    _after_troughs(P)
+
+
+def _after_filter(P):
+    """the boundary filter keeps a contiguous block of each (sorted) sequence; the two blocks are aligned up to one
+    element at either end; the three half-waves that osc3 places inside the boundary make the blocks long enough"""
+    M = _maps(P)
+    E, env = M['E'], M['env']
+    gR, cD, tR, tD = M['gR'], M['cD'], M['tR'], M['tD']
+    gD = M['gD']
+    X = E.st.ghost['chain_ctx']
+    Pa, Ta, nP, nT, c = X['Pa'], X['Ta'], X['nP'], X['nT'], X['c']
+    pk3, tr3 = env['peaks'], env['troughs']
+    AP, AT = _cmap_of_compress(E, pk3), _cmap_of_compress(E, tr3)
+    gP, cP, gT, cT = pk3.meta['compress_of'][2], pk3.meta['compress_of'][3], tr3.meta['compress_of'][2], tr3.meta['compress_of'][3]
+    kP, kT = pk3.n, tr3.n
+    cmap_lemmas(P, AP, gP, cP, kP, 'FP')
+    cmap_lemmas(P, AT, gT, cT, kT, 'FT')
+    P.ground('filter-lengths', z3.And(AP['n'] == nP, AT['n'] == nT), by=[])
+    k, i = z3.Int('F_k'), z3.Int('F_i')
+    FK, CN = P.inst('first-kind'), P.inst('counts')
+    h = term_int(E.spec_eval(H, dict(env)))
+    b = term_int(env['boundary'])
+    L = term_int(env['sig_len'])
+    a = z3.Int('witness.a')
+    inb = lambda x: z3.And(x - h > b, x - h < L - b)
+    P.forall('maskP', [i], z3.And(0 <= i, i < nP), AP['mask'](i) == inb(Pa(i)), by=[])
+    P.forall('maskT', [i], z3.And(0 <= i, i < nT), AT['mask'](i) == inb(Ta(i)), by=[])
+    # contiguity
+    P.forall('FP:step', [k], z3.And(0 <= k, k + 1 < kP), gP(k + 1) == gP(k) + 1,
+             by=[P.inst('FP:cag', k), P.inst('FP:cag', k + 1), AP['inc'](k, k + 1), P.inst('Pstep', gP(k)),
+                 P.inst('Pmono', gP(k) + 1, gP(k + 1)), P.inst('maskP', gP(k)), P.inst('maskP', gP(k) + 1),
+                 P.inst('maskP', gP(k + 1)), P.inst('FP:hit', gP(k) + 1)])
+    P.forall('FT:step', [k], z3.And(0 <= k, k + 1 < kT), gT(k + 1) == gT(k) + 1,
+             by=[P.inst('FT:cag', k), P.inst('FT:cag', k + 1), AT['inc'](k, k + 1), P.inst('Tstep', gT(k)),
+                 P.inst('Tmono', gT(k) + 1, gT(k + 1)), P.inst('maskT', gT(k)), P.inst('maskT', gT(k) + 1),
+                 P.inst('maskT', gT(k + 1)), P.inst('FT:hit', gT(k) + 1)])
+    P.induct_q('FP:lin', k, 0, kP - 1, gP(k) == gP(0) + k, lambda it: [P.inst('FP:step', it)])
+    P.induct_q('FT:lin', k, 0, kT - 1, gT(k) == gT(0) + k, lambda it: [P.inst('FT:step', it)])
+    uP, uT = gP(0), gT(0)
+    P.forall('FP:out', [i], z3.And(0 <= i, i < nP, AP['mask'](i)), z3.And(uP <= i, i < uP + kP, kP >= 1),
+             by=[P.inst('FP:hit', i), P.inst('FP:lin', cP(i))])
+    P.forall('FT:out', [i], z3.And(0 <= i, i < nT, AT['mask'](i)), z3.And(uT <= i, i < uT + kT, kT >= 1),
+             by=[P.inst('FT:hit', i), P.inst('FT:lin', cT(i))])
+    # the three half-waves of osc3
+    W3 = [P.inst('R:cag', a), P.inst('R:cag', a + 1), P.inst('R:cag', a + 2), M['AR']['inc'](a, a + 1), M['AR']['inc'](a + 1, a + 2),
+          M['AR']['inc'](a, a + 2), P.inst('D:lt', tD - 1, gR(tR - 1) + 1), P.inst('D:cag', tD - 1), P.inst('R:cag', tR - 1),
+          P.inst('D:cle', gR(tR - 1) + 1), P.inst('S1', a + 2)]
+    P.ground('W-peaks', z3.And(a >= 0, a + 2 < nP, AP['mask'](a), AP['mask'](a + 1), AP['mask'](a + 2)),
+             by=W3 + [CN, FK, P.inst('Pwin', a), P.inst('Pwin', a + 1), P.inst('Pwin', a + 2), P.inst('Pstep', a), P.inst('Pstep', a + 1),
+                      P.inst('maskP', a), P.inst('maskP', a + 1), P.inst('maskP', a + 2)])
+    P.ground('W-troughs', z3.And(a + 1 + c < nT, AT['mask'](a + c), AT['mask'](a + 1 + c)),
+             by=[P.inst('W-peaks'), CN, FK, P.inst('chainA', a), P.inst('chainB', a + c), P.inst('chainA', a + 1),
+                 P.inst('chainB', a + 1 + c), P.inst('maskP', a), P.inst('maskP', a + 1), P.inst('maskP', a + 2),
+                 P.inst('maskT', a + c), P.inst('maskT', a + 1 + c)])
+    P.ground('enough', z3.And(kP >= 3, kT >= 2),
+             by=[P.inst('W-peaks'), P.inst('W-troughs'), FK, P.inst('FP:hit', a), P.inst('FP:hit', a + 1), P.inst('FP:hit', a + 2),
+                 P.inst('FT:hit', a + c), P.inst('FT:hit', a + 1 + c)])
+    EN = P.inst('enough')
+    vP, vT = uP + kP, uT + kT
+    lin = [P.inst('FP:lin', 1), P.inst('FP:lin', kP - 1), P.inst('FP:lin', kP - 2), P.inst('FT:lin', kT - 1),
+           P.inst('FP:cag', 0), P.inst('FP:cag', 1), P.inst('FP:cag', kP - 1), P.inst('FP:cag', kP - 2), P.inst('FT:cag', 0),
+           P.inst('FT:cag', kT - 1)]
+    # start of the trough block: trough uP - 1 + c or uP + c
+    P.ground('align-start', z3.And(uT - c >= uP - 1, uT - c <= uP),
+             by=lin + [EN, FK, CN, P.inst('chainA', uP), P.inst('chainB', uP + c), P.inst('maskP', uP), P.inst('maskP', uP + 1),
+                       P.inst('maskT', uP + c), P.inst('FT:out', uP + c),
+                       P.inst('chainB', uT), P.inst('Pmono', uT - c + 1, uP - 1), P.inst('FP:out', uP - 1), P.inst('maskP', uP - 1),
+                       P.inst('Pstep', uP - 1), P.inst('maskT', uT)])
+    P.ground('align-end', z3.And(vT - c >= vP - 1, vT - c <= vP),
+             by=lin + [EN, FK, CN, P.inst('chainA', vP - 2), P.inst('chainB', vP - 2 + c), P.inst('maskP', vP - 2), P.inst('maskP', vP - 1),
+                       P.inst('maskT', vP - 2 + c), P.inst('FT:out', vP - 2 + c),
+                       P.inst('chainA', vT - 1 - c), P.inst('Pmono', vP, vT - 1 - c), P.inst('FP:out', vP), P.inst('maskP', vP),
+                       P.inst('Pstep', vP - 1), P.inst('maskT', vT - 1)])
+    E.st.ghost['filter_ctx'] = dict(pk3=pk3, tr3=tr3, gP=gP, gT=gT, kP=kP, kT=kT, uP=uP, uT=uT, inb=inb, h=h, b=b, L=L)
+
+
+def _cmap_of_compress(E, arr):
+    g = arr.meta['compress_of'][2]
+    key = [kk for kk in E.st.ghost.get('cmap_inst', {}) if E.st.ghost[kk][1].eq(g)][0]
+    return E.st.ghost['cmap_inst'][key]
+
+
+def _before_trim_peaks(P):
+    pass
+
+
+def _before_return(P):
+    """the trimming for first_extrema='peak' drops the leading trough / the trailing peak exactly when the block starts
+    with a trough / ends with a peak: what remains starts with a peak, alternates strictly and has equal counts"""
+    if 'filter_ctx' not in P.E.st.ghost or 'rise_xs' not in P.env:
+        return                                      # (a return inside an inlined helper)
+    M = _maps(P)
+    E, env = M['E'], M['env']
+    X, Y = E.st.ghost['chain_ctx'], E.st.ghost['filter_ctx']
+    Pa, Ta, nP, nT, c = X['Pa'], X['Ta'], X['nP'], X['nT'], X['c']
+    pk3, tr3, gP, gT, kP, kT, uP, uT, inb, h = (Y[k] for k in ('pk3', 'tr3', 'gP', 'gT', 'kP', 'kT', 'uP', 'uT', 'inb', 'h'))
+    res0, res1 = env['peaks'], env['troughs']
+    if not (res0.ident == pk3.ident and res1.ident == tr3.ident):
+        raise Unsupported('the returned arrays are not views of the boundary-filtered ones')
+    t = lambda x: x if not isinstance(x, int) else z3.IntVal(x)
+    first = env['first_extrema']
+    dP = z3.simplify(t(res0.off) - t(pk3.off))            # elements dropped in front by the trimming
+    dT = z3.simplify(t(res1.off) - t(tr3.off))
+    delta = dT
+    n0, n1 = t(res0.n), t(res1.n)
+    vP, vT = uP + kP, uT + kT
+    FK, CN, EN = P.inst('first-kind'), P.inst('counts'), P.inst('enough')
+    lin = [P.inst('FP:lin', 1), P.inst('FP:lin', kP - 1), P.inst('FP:lin', kP - 2), P.inst('FT:lin', kT - 1), P.inst('FT:lin', 1),
+           P.inst('FP:cag', 0), P.inst('FP:cag', 1), P.inst('FP:cag', kP - 1), P.inst('FP:cag', kP - 2), P.inst('FT:cag', 0),
+           P.inst('FT:cag', kT - 1), P.inst('FT:cag', 1)]
+    i = z3.Int('Z_i')
+    r0 = lambda x: to_int(E.rd(res0, x))
+    r1 = lambda x: to_int(E.rd(res1, x))
+    b, L = Y['b'], Y['L']
+    if first == 'peak':
+        P.ground('trim-start', z3.And(uT + dT == uP + c, dT >= 0, dT <= 1, dP == 0),
+                 by=lin + [EN, FK, CN, P.inst('align-start'), P.inst('chainA', uP), P.inst('chainB', uP - 1 + c)])
+        P.ground('trim-end', z3.And(n0 == n1, n0 >= 2, n1 == kT - dT, n0 <= kP, n0 >= kP - 1),
+                 by=lin + [EN, FK, CN, P.inst('trim-start'), P.inst('align-end'), P.inst('chainA', vP - 1), P.inst('chainB', vP - 2 + c)])
+    elif first == 'trough':
+        P.ground('trim-start', z3.And(uP + dP == uT - c + 1, dP >= 0, dP <= 1, dT == 0),
+                 by=lin + [EN, FK, CN, P.inst('align-start'), P.inst('chainA', uP), P.inst('chainB', uP - 1 + c)])
+        P.ground('trim-end', z3.And(n0 == n1, n0 >= 2, n0 == kP - dP, n1 <= kT, n1 >= kT - 1),
+                 by=lin + [EN, FK, CN, P.inst('trim-start'), P.inst('align-end'), P.inst('chainA', vP - 1), P.inst('chainB', vP - 2 + c)])
+    else:
+        P.ground('trim-start', z3.And(dP == 0, dT == 0), by=[])
+        P.ground('trim-end', z3.And(n0 == kP, n1 == kT, n0 >= 3, n1 >= 2), by=[EN])
+    TS, TE = P.inst('trim-start'), P.inst('trim-end')
+    common = lambda x: [TS, TE, EN, FK, CN, P.inst('FP:lin', x + dP), P.inst('FT:lin', x + dT), P.inst('FP:cag', x + dP),
+                        P.inst('FT:cag', x + dT), P.inst('FP:lin', x + 1 + dP), P.inst('FP:cag', x + 1 + dP),
+                        P.inst('FT:lin', x + 1 + dT), P.inst('FT:cag', x + 1 + dT)]
+    if first == 'peak':
+        P.forall('final:peak-before-trough', [i], z3.And(0 <= i, i < n0), r0(i) < r1(i),
+                 by=common(i) + [P.inst('chainA', uP + i)])
+        P.forall('final:trough-before-next-peak', [i], z3.And(0 <= i, i < n0 - 1), r1(i) < r0(i + 1),
+                 by=common(i) + [P.inst('chainB', uP + i + c)])
+    elif first == 'trough':
+        P.forall('final:trough-before-peak', [i], z3.And(0 <= i, i < n0), r1(i) < r0(i),
+                 by=common(i) + [P.inst('chainB', uT + i)])
+        P.forall('final:peak-before-next-trough', [i], z3.And(0 <= i, i < n0 - 1), r0(i) < r1(i + 1),
+                 by=common(i) + [P.inst('chainA', uT + i - c + 1)])
+    P.forall('final:inside', [i], z3.And(0 <= i, i < n0), z3.And(b < r0(i), r0(i) < L - b),
+             by=common(i) + [P.inst('maskP', gP(i + dP))])
+    P.forall('final:inside-troughs', [i], z3.And(0 <= i, i < n1), z3.And(b < r1(i), r1(i) < L - b),
+             by=common(i) + [P.inst('maskT', gT(i + dT))])
+    pa = term_int(E.spec_eval("pad_amount()", dict(env)))
+    P.ground('pad-amount', pa == h, by=[])
+    # ---- C02: which half-wave each reported extremum belongs to, and that it is the first extreme value of its window
+    gR, cR, gD, cD, tR, tD, AR, AD = M['gR'], M['cR'], M['gD'], M['cD'], M['tR'], M['tD'], M['AR'], M['AD']
+    cp = X['cp']
+    S = env['sig']                                   # the padded raw signal (a local of the function)
+    at = lambda x: to_real(E.rd(S, x))
+    j = z3.Int('Z_j')
+    for kind in ('peak', 'trough'):
+        if kind == 'peak':
+            g1, c1, t1, pre1, g2, c2, t2, pre2, Xa, nX, off, win, step, S12, loop, other_first, res, nres, gF, shift, later = (
+                gR, cR, tR, 'R', gD, cD, tD, 'D', Pa, nP, c, 'Pwin', 'L1', 'S1', 1, c, r0, n0, gP, dP, 'LD')
+        else:
+            g1, c1, t1, pre1, g2, c2, t2, pre2, Xa, nX, off, win, step, S12, loop, other_first, res, nres, gF, shift, later = (
+                gD, cD, tD, 'D', gR, cR, tR, 'R', Ta, nT, cp, 'Twin', 'L2', 'S2', 3, cp, r1, n1, gT, dT, 'LR')
+        q = gF(i + shift)                            # the half-wave number of reported extremum i
+        pos = Xa(q)
+        idx = [TS, TE, EN, FK, CN, P.inst(('FP' if kind == 'peak' else 'FT') + ':lin', i + shift),
+               P.inst(('FP' if kind == 'peak' else 'FT') + ':cag', i + shift)]
+        whichq = idx + [P.inst(win, q), P.inst(later, q), P.inst(S12, q), P.inst(step, q), P.inst(pre1 + ':cag', q),
+                        P.inst(pre1 + ':cag', q + 1), P.inst(pre2 + ':cag', off + q), P.inst(pre1 + ':lt', q, pos + 1),
+                        P.inst(pre1 + ':below', q + 1, pos + 1), P.inst(pre1 + ':cle', pos + 1)]
+        P.forall('c02:%s:which' % kind, [i], z3.And(0 <= i, i < nres), z3.And(res(i) + h == pos, c1(pos + 1) - 1 == q, 0 <= q, q < nX),
+                 by=whichq)
+        WQ = lambda x: z3.substitute(P.inst('c02:%s:which' % kind, i), (i, x))
+        P.forall('c02:%s:window' % kind, [i], z3.And(0 <= i, i < nres),
+                 z3.And(0 <= c1(res(i) + h + 1) - 1, c1(res(i) + h + 1) - 1 < t1, g1(c1(res(i) + h + 1) - 1) <= res(i) + h,
+                        c2(g1(c1(res(i) + h + 1) - 1) + 1) < t2, res(i) + h < g2(c2(g1(c1(res(i) + h + 1) - 1) + 1))),
+                 by=[P.inst('c02:%s:which' % kind, i), P.inst(win, q), P.inst(later, q), P.inst(S12, q), CN, FK])
+        cmp_all = (lambda a_, b_: a_ <= b_) if kind == 'peak' else (lambda a_, b_: a_ >= b_)
+        cmp_first = (lambda a_, b_: a_ < b_) if kind == 'peak' else (lambda a_, b_: a_ > b_)
+        qq = c1(res(i) + h + 1) - 1
+        P.forall('c02:%s:extreme' % kind, [i, j], z3.And(0 <= i, i < nres, g1(qq) <= j, j < g2(c2(g1(qq) + 1))),
+                 cmp_all(at(j), at(res(i) + h)),
+                 by=[P.inst('c02:%s:which' % kind, i), P.instq('loop%d-exit' % loop, 4, q, j), P.inst(S12, q), CN, FK])
+        P.forall('c02:%s:first' % kind, [i, j], z3.And(0 <= i, i < nres, g1(qq) <= j, j < res(i) + h),
+                 cmp_first(at(j), at(res(i) + h)),
+                 by=[P.inst('c02:%s:which' % kind, i), P.instq('loop%d-exit' % loop, 5, q, j), CN, FK])
+        P.forall('c02:%s:consecutive' % kind, [i], z3.And(0 <= i, i < nres - 1), c1(res(i + 1) + h + 1) == c1(res(i) + h + 1) + 1,
+                 by=[P.inst('c02:%s:which' % kind, i), WQ(i + 1), TS, TE, EN,
+                     P.inst(('FP' if kind == 'peak' else 'FT') + ':lin', i + shift),
+                     P.inst(('FP' if kind == 'peak' else 'FT') + ':lin', i + 1 + shift)])
+        # the contract's own clauses, proved for arbitrary bound variables from instances of the lemmas above
+        env2 = dict(E.entry_env)
+        env2['result'] = (res0, res1)
+        clauses = _c02_clauses(0 if kind == 'peak' else 1, kind)
+        glue = [P.inst('pad-amount')]
+        sub = lambda fact, *ts: z3.substitute(P.inst(fact, *([i, j][:len(ts)])), *list(zip([i, j][:len(ts)], ts)))
+        P.prove_clause('ens:%s:1' % kind, clauses[0], env2, lambda a_: glue + [sub('c02:%s:window' % kind, a_)])
+        rng = lambda a_: [z3.substitute(t_, (i, a_)) for t_ in
+                          [P.inst('c02:%s:which' % kind, i), P.inst('c02:%s:window' % kind, i), P.inst(pre1 + ':cag', q),
+                           P.inst(pre2 + ':cag', off + q), P.inst(S12, q), CN, FK]]
+        P.prove_clause('ens:%s:2' % kind, clauses[1], env2, lambda a_, b_: glue + rng(a_) + [sub('c02:%s:extreme' % kind, a_, b_)])
+        P.prove_clause('ens:%s:3' % kind, clauses[2], env2, lambda a_, b_: glue + rng(a_) + [sub('c02:%s:first' % kind, a_, b_)])
+        P.prove_clause('ens:%s:4' % kind, clauses[3], env2, lambda a_: glue + [sub('c02:%s:consecutive' % kind, a_)])
+
+
+# ---------------------------------------------------------------------------------------------------------------------
+H = "int(np.ceil(filt_len / 2))"          # zeros added in front of the signal (locals of the function)
+ND = "count_before(decay_xs, rise_xs[%s] + 1)"             # position in decay_xs of the first decay crossing after rise %s
+NR = "count_before(rise_xs, decay_xs[%s] + 1)"
 
 # osc3 := three consecutive rise crossings of the band-passed (padded) signal, each followed by a decay crossing, such
 # that all of these half-waves lie strictly inside the boundary of the unpadded signal
 W = ("implies(osc3(param('sig'), fs, f_range, boundary, param('filter_kwargs'), pass_type, pad), "
      "0 <= witness('a') and witness('a') + 2 < len(rises(sig_filt)) and len(decays(sig_filt)) >= 1 and "
      "rises(sig_filt)[witness('a')] - {H} > boundary and "
-     "first_gt(decays(sig_filt), rises(sig_filt)[witness('a') + 2]) < len(decays(sig_filt)) and "
-     "decays(sig_filt)[first_gt(decays(sig_filt), rises(sig_filt)[witness('a') + 2])] - {H} <= sig_len - boundary)").format(H=H)
+     "count_before(decays(sig_filt), rises(sig_filt)[witness('a') + 2] + 1) < len(decays(sig_filt)) and "
+     "decays(sig_filt)[count_before(decays(sig_filt), rises(sig_filt)[witness('a') + 2] + 1)] - {H} <= sig_len - boundary)").format(H=H)
+
+
+RS, DS = "rises(%s)" % FILT, "decays(%s)" % FILT
+
+
+def _c02_clauses(k, kind):
+    """C02 for the reported extrema of one kind (k = 0 peaks / 1 troughs): each is the FIRST maximum (minimum) of the raw
+    signal over the sample window of one half-wave of the band-passed signal that is closed by zero-crossings on both
+    sides, and consecutive reported extrema belong to consecutive half-waves (none is skipped)"""
+    A, B = (RS, DS) if kind == 'peak' else (DS, RS)
+    res = "result[%d]" % k
+    pos = "(%s[i] + pad_amount())" % res
+    q = "(count_before(%s, %s + 1) - 1)" % (A, pos)
+    close = "count_before(%s, %s[%s] + 1)" % (B, A, q)
+    le, lt = ("<=", "<") if kind == 'peak' else (">=", ">")
+    rng = "0 <= i and i < len(%s)" % res
+    return [
+        "forall(i, {rng}, 0 <= {q} and {q} < len({A}) and {A}[{q}] <= {pos} and {close} < len({B}) and {pos} < {B}[{close}])"
+        .format(rng=rng, q=q, A=A, B=B, pos=pos, close=close),
+        "forall((i, j), {rng} and {A}[{q}] <= j and j < {B}[{close}], padded(sig, pad_amount(), j) {le} padded(sig, pad_amount(), {pos}))"
+        .format(rng=rng, q=q, A=A, B=B, pos=pos, close=close, le=le),
+        "forall((i, j), {rng} and {A}[{q}] <= j and j < {pos}, padded(sig, pad_amount(), j) {lt} padded(sig, pad_amount(), {pos}))"
+        .format(rng=rng, q=q, A=A, pos=pos, lt=lt),
+        "forall(i, 0 <= i and i < len({res}) - 1, count_before({A}, {res}[i + 1] + pad_amount() + 1) == count_before({A}, {pos} + 1) + 1)"
+        .format(res=res, A=A, pos=pos),
+    ]
+
+
+C02 = _c02_clauses(0, 'peak') + _c02_clauses(1, 'trough')
+
+
+INSIDE = ["forall(i, 0 <= i < len(result[0]), boundary < result[0][i] and result[0][i] < len(sig) - boundary)",
+          "forall(i, 0 <= i < len(result[1]), boundary < result[1][i] and result[1][i] < len(sig) - boundary)"]
+ALTERNATE_TROUGH_FIRST = [
+    # equally many peaks and troughs, starting with a trough, strictly alternating
+    "len(result[0]) == len(result[1]) and len(result[0]) >= 2",
+    "forall(i, 0 <= i < len(result[0]), result[1][i] < result[0][i])",
+    "forall(i, 0 <= i < len(result[0]) - 1, result[0][i] < result[1][i + 1])"]
+BY_MODE = {
+    'peak': (ALTERNATE_PEAK_FIRST, {1: ['trim-end'], 2: ['final:peak-before-trough'], 3: ['final:trough-before-next-peak'],
+                                    4: ['trim-end', 'final:inside', 'final:inside-troughs']}),
+    'trough': (ALTERNATE_TROUGH_FIRST + INSIDE, {1: ['trim-end'], 2: ['final:trough-before-peak'], 3: ['final:peak-before-next-trough'],
+                                                 4: ['final:inside'], 5: ['final:inside-troughs']}),
+    None: (["len(result[0]) >= 3 and len(result[1]) >= 2"] + INSIDE, {1: ['trim-end'], 2: ['final:inside'], 3: ['final:inside-troughs']}),
+}
 
 
 def _cases():
     out = []
-    for fl, ft in (('None', 'none'), ('given', 'opaque')):
+    for first in ('peak', 'trough', None):
+      for fl, ft in (('None', 'none'), ('given', 'opaque')):
+        shape, using = BY_MODE[first]
+        using = dict(using)
+        k0 = len(shape)
+        for n_, nm in enumerate(['ens:peak:1', 'ens:peak:2', 'ens:peak:3', 'ens:peak:4', 'ens:trough:1', 'ens:trough:2',
+                                 'ens:trough:3', 'ens:trough:4']):
+            using[k0 + 1 + n_] = [nm]
         out.append(dict(
-            label='first=peak,fk=%s' % fl,
+            label='first=%s,fk=%s' % (first, fl),
             params={'sig': ('arr', REAL), 'fs': REAL, 'f_range': ('tuple', [REAL, REAL]), 'boundary': INT,
-                    'first_extrema': ('const', 'peak'), 'filter_kwargs': ft, 'pass_type': STR, 'pad': BOOL},
+                    'first_extrema': ('const', first), 'filter_kwargs': ft, 'pass_type': STR, 'pad': BOOL},
             requires=["boundary >= 0", "osc3(sig, fs, f_range, boundary, filter_kwargs, pass_type, pad)"],
             define={('after_assign', 'sig_filt'): [W]},
-            ensures=ALTERNATE_PEAK_FIRST,
+            proof={('after_assign', 'decay_xs'): _after_crossings, ('after_assign', 'n_troughs'): _after_counts,
+                   ('loop_entry', 2): _stash_start('_decay_xs'), ('loop_entry', 4): _stash_start('_rise_xs'),
+                   ('before_assign', 'next_decay'): _after_scan('peak'), ('before_assign', 'next_rise'): _after_scan('trough'),
+                   ('before_assign', 'peaks'): _before_peaks, ('after_assign', 'troughs'): _after_troughs2,
+                   ('after_assign', 'peaks'): _after_store('peak'),
+                   ('before_return',): _before_return},
+            ensures=shape + C02,
+            ensures_using=using,
             loops={
-                1: dict(index='p', mutates=['peaks'], invariant=[
+                1: dict(index='p', mutates=['peaks'], using=['window-extreme:peak', 'window-first:peak'], invariant=[
                     "len(peaks) == n_peaks",
-                    "view_start(_decay_xs) == (0 if p == 0 else first_gt(decay_xs, rise_xs[p - 1]))",
+                    "view_start(_decay_xs) == (0 if p == 0 else %s)" % (ND % 'p - 1'),
                     "len(_decay_xs) == len(decay_xs) - view_start(_decay_xs)",
-                    "forall(q, 0 <= q < p, rise_xs[q] <= peaks[q] and peaks[q] < decay_xs[first_gt(decay_xs, rise_xs[q])])",
+                    "forall(q, 0 <= q < p, rise_xs[q] <= peaks[q] and peaks[q] < decay_xs[%s])" % (ND % 'q'),
+                    "forall((q, j), 0 <= q < p and rise_xs[q] <= j and j < decay_xs[%s], sig[j] <= sig[peaks[q]])" % (ND % 'q'),
+                    "forall((q, j), 0 <= q < p and rise_xs[q] <= j and j < peaks[q], sig[j] < sig[peaks[q]])",
                 ]),
-                2: dict(index='j', preserved=['_decay_xs'], invariant=[
+                2: dict(index='j', preserved=['_decay_xs'], using=[], invariant=[
                     "forall(i, 0 <= i < j, _decay_xs[i] <= last_rise)"]),
-                3: dict(index='t', mutates=['troughs'], invariant=[
+                3: dict(index='t', mutates=['troughs'], using=['window-extreme:trough', 'window-first:trough'], invariant=[
                     "len(troughs) == n_troughs",
-                    "view_start(_rise_xs) == (0 if t == 0 else first_gt(rise_xs, decay_xs[t - 1]))",
+                    "view_start(_rise_xs) == (0 if t == 0 else %s)" % (NR % 't - 1'),
                     "len(_rise_xs) == len(rise_xs) - view_start(_rise_xs)",
-                    "forall(q, 0 <= q < t, decay_xs[q] <= troughs[q] and troughs[q] < rise_xs[first_gt(rise_xs, decay_xs[q])])",
+                    "forall(q, 0 <= q < t, decay_xs[q] <= troughs[q] and troughs[q] < rise_xs[%s])" % (NR % 'q'),
+                    "forall((q, j), 0 <= q < t and decay_xs[q] <= j and j < rise_xs[%s], sig[j] >= sig[troughs[q]])" % (NR % 'q'),
+                    "forall((q, j), 0 <= q < t and decay_xs[q] <= j and j < troughs[q], sig[j] > sig[troughs[q]])",
                 ]),
-                4: dict(index='j', preserved=['_rise_xs'], invariant=[
+                4: dict(index='j', preserved=['_rise_xs'], using=[], invariant=[
                     "forall(i, 0 <= i < j, _rise_xs[i] <= last_decay)"]),
             }))
     return out
